@@ -151,50 +151,64 @@ def translate_and_make(targets: list[str], timeout: int = 1500) -> BuildResult:
     return res
 
 
+def property_files(pid: str) -> list[str]:
+    """Properties/<pid>.v and optional parts Properties/<pid>a.v, <pid>b.v, ..."""
+    d = os.path.join(COQ, "Properties")
+    return sorted(f for f in os.listdir(d) if re.fullmatch(rf"{pid}[a-z]?\.v", f))
+
+
 def start_property_file(pid: str, res: BuildResult, work: str):
-    """Start coqc on Properties/<pid>.v itself (in the background, while the correspondence runs): the final
+    """Start coqc on the property files themselves (in the background, while the correspondence runs): the final
     `exact` steps are re-checked on every run and Print Assumptions is captured for the evidence."""
-    src = os.path.join(COQ, "Properties", f"{pid}.v")
-    txt = open(src).read()
-    res.theorems = re.findall(r"^\s*(?:Theorem|Example)\s+([A-Za-z0-9_']+)", txt, flags=re.M)
+    files = property_files(pid)
+    res.theorems = []
+    for f in files:
+        txt = open(os.path.join(COQ, "Properties", f)).read()
+        res.theorems += re.findall(r"^\s*(?:Theorem|Example)\s+([A-Za-z0-9_']+)", txt, flags=re.M)
+    if not files:
+        res.ok = False
+        res.failed = f"Properties/{pid}.v missing"
+        return None
     if not res.ok:
         return None
-    return subprocess.Popen(["coqc", "-R", ".", "VF", "-w", "-notation-overridden", "-o", os.path.join(work, f"{pid}.vo"), f"Properties/{pid}.v"],
-                            cwd=COQ, stdout=subprocess.PIPE, stderr=subprocess.STDOUT, text=True)
+    procs = []
+    for f in files:
+        procs.append((f, subprocess.Popen(["coqc", "-R", ".", "VF", "-w", "-notation-overridden", "-o", os.path.join(work, f + "o"), f"Properties/{f}"],
+                                          cwd=COQ, stdout=subprocess.PIPE, stderr=subprocess.STDOUT, text=True)))
+    return procs
 
 
-def finish_property_file(pid: str, res: BuildResult, proc) -> None:
-    if proc is None:
+def finish_property_file(pid: str, res: BuildResult, procs) -> None:
+    if not procs:
         return
-    src = os.path.join(COQ, "Properties", f"{pid}.v")
-    txt = open(src).read()
-    try:
-        out, _ = proc.communicate(timeout=1500)
-        rc = proc.returncode
-    except subprocess.TimeoutExpired:
-        proc.kill()
-        rc, out = 124, "TIMEOUT"
-    if rc != 0:
-        res.ok = False
-        m = re.search(r'File "\./([^"]+)", line (\d+)', out)
-        res.failed = f"{m.group(1)}:{m.group(2)}" if m else f"Properties/{pid}.v"
-        res.error_text = out[-3000:]
-        return
-    # parse Print Assumptions blocks
     axioms: set[str] = set()
     closed = 0
-    for block in re.split(r"\n(?=Axioms:|Closed under the global context)", out):
-        if block.startswith("Closed under"):
-            closed += 1
-        elif block.startswith("Axioms:"):
-            for m in re.finditer(r"^([A-Za-z_][A-Za-z0-9_.']*)\s*:", block, flags=re.M):
-                if m.group(1) != "Axioms":
-                    axioms.add(m.group(1))
+    deps_txt = ""
+    for f, proc in procs:
+        try:
+            out, _ = proc.communicate(timeout=1500)
+            rc = proc.returncode
+        except subprocess.TimeoutExpired:
+            proc.kill()
+            rc, out = 124, "TIMEOUT"
+        if rc != 0:
+            res.ok = False
+            m = re.search(r'File "\./([^"]+)", line (\d+)', out)
+            res.failed = f"{m.group(1)}:{m.group(2)}" if m else f"Properties/{f}"
+            res.error_text = out[-3000:]
+            continue
+        for block in re.split(r"\n(?=Axioms:|Closed under the global context)", out):
+            if block.startswith("Closed under"):
+                closed += 1
+            elif block.startswith("Axioms:"):
+                for m in re.finditer(r"^([A-Za-z_][A-Za-z0-9_.']*)\s*:", block, flags=re.M):
+                    if m.group(1) != "Axioms":
+                        axioms.add(m.group(1))
+        deps_txt += open(os.path.join(COQ, "Properties", f)).read()
     res.assumptions = {"axioms": sorted(axioms), "closed_theorems": [str(closed)]}
-    # lemmas in the proof files this property depends on (informational)
-    deps = re.findall(r"From VF Require Import ([^.]+)\.", txt)
+    deps = re.findall(r"From VF Require Import ([^.]+)\.", deps_txt)
     n = 0
-    for d in " ".join(deps).split():
+    for d in set(" ".join(deps).split()):
         for sub in ("Proofs", "Spec", "Model", "Num"):
             p = os.path.join(COQ, sub, d + ".v")
             if os.path.exists(p):
